@@ -119,6 +119,7 @@ func init() {
 		return m.S.Bool(ok && t.IsConst())
 	})
 	reg("verifTier", func(m *Machine, fn *ssa.Function, a []Value) Value { return m.S.Const(64, uint64(m.Opt.Tier)) })
+	reg("verifNative", func(m *Machine, fn *ssa.Function, a []Value) Value { return m.S.False })
 	reg("verifYield", func(m *Machine, fn *ssa.Function, a []Value) Value { m.Yield(nil, "verifYield"); return nil })
 	reg("verifSwitches", func(m *Machine, fn *ssa.Function, a []Value) Value {
 		return m.S.Const(64, uint64(m.Sched.Switches))
